@@ -444,6 +444,9 @@ def collect_into(eng, it, target):
     if t.startswith("Derives"): return eng.call("<Derives as FromIterator<syn::Path>>::from_iter", [], [it])
     for rx, fn in COLLECT_HOOKS:
         if rx.match(t): return fn(eng, it, t)
+    # any other collection: through its own FromIterator model (spelled with and without the std/crate module path)
+    try: return eng.call("<%s as FromIterator<_>>::from_iter" % t, [t], [it])
+    except Unmodelled: pass
     raise Unmodelled("collect into " + t)
 COLLECT_HOOKS = []
 
